@@ -259,6 +259,9 @@ def layer_units(tier, layers):
 
 def units_C02(tier, seed):
     U = layer_units(tier, ['clamp', 'backup', 'shuffle', 'cast', 'prims', 'nn'])
+    # affine mapping (C09's layer units) and linear interpolation with N != M (C03's identity units) are layers of the grammar too
+    U += [u for u in units_C09(tier, seed) if u['name'].startswith('c09_layer_')]
+    U += [u for u in units_C03(tier, seed) if u['name'].startswith('c03_identity_') and ('_2_3_' in u['name'] or '_3_1_' in u['name'] or '_1_3_' in u['name'])]
     return U + more_C02(tier)
 
 
